@@ -14,7 +14,10 @@ EXPLANATION = (
     "prefix, loop test, dispatch on the header's low bit, frame, variant) and delta_binary_unpack (header, block header, miniblock "
     "dispatch + rewind, one arbitrary value slot: stored value, running sum, count, return condition, capacity invariant, frame); the "
     "induction from step lemmas to whole streams is argued. Encoders / speedups byte arrays: see the obligation table when their "
-    "contract modules are present, else bounded layer only; numpy-level boolean packing is numpy (assumed).")
+    "contract modules are present, else bounded layer only; numpy-level boolean packing is numpy (assumed). "
+    "The text / bytes rows of writer.convert -> encode_plain (`text.bytes_written_are_utf8_of_cell[...]`, backend `enumeration`) are EXECUTED on "
+    "boundary values (NULs, empty, multi-byte UTF-8): complete for the dtype table, bounded in the value dimension - they are not part of the "
+    "deductive claim.")
 
 
 def p_kernels(ctx):
@@ -28,5 +31,5 @@ def p_deflevels(ctx):
 
 def run(ctx):
     from ._generic import optional_parts
-    extra = optional_parts(("_hybrid", "p_hybrid"), ("_encoders", "p_encoders"), ("_speedups", "p_speedups"))
+    extra = optional_parts(("_hybrid", "p_hybrid"), ("_encoders", "p_encoders"), ("_speedups", "p_speedups"), ("_units", "p_units"))
     return run_property(ctx, "proof", EXPLANATION, p_parts=[p_kernels, p_deflevels] + extra, b_modules=["c11_numpy_paths"])
